@@ -33,11 +33,14 @@ PROPS = {
                     "creates only whitespace; load_token_trivia (real loop over a Peekable with an inner next(), inductive invariant): the comments of the input trivia come out in order, each only "
                     "rewritten as format_token allows, input whitespace is never copied, and in leading trivia every line comment is followed by a newline; format_token_reference / format_symbol / "
                     "format_eof / format_end_token (reverse pass proved with a reverse lemma) re-emit exactly those comments (stated over the comment subsequence cms()); pop_until_no_whitespace removes whitespace only. "
-                    "format_function_args keeps parentheses that carry comments.",
+                    "format_function_args keeps parentheses that carry comments. remove_condition_parentheses appends every comment of the removed parentheses to the condition; "
+                    "take_singleline_trailing_comments / format_field_expression_value hand on the comments of the formatted field value. "
+                    "Bounded (labelled): comment-census witnesses per transplant site and the corpus sweep.",
         not_decided=[
                      "comment transplant sites built from iterator-adapter chains (parenthesis removal, semicolon removal, hang_binop, punctuated lists, table fields): holes; "
                      "a comment dropped inside such a chain is not visible to this unit",
-                     "code never ends up inside a comment: only the `line comment is followed by a newline` necessary condition (C01.line_comment_terminated)"],
+                     "code never ends up inside a comment: decided inside expressions (line safety, see C01) and for leading trivia (C01.load_line_comment_terminated); elsewhere bounded witnesses only",
+                     "known NOT to hold on the current tree: two line comments around a comma merge (D28), a comment between a name key and `=` is lost (D29, pinned by a snapshot), comments behind header keywords (D30)"],
         assumptions=["TokenReference::new/leading_trivia/trailing_trivia behave as a triple of sequences (class A)"]),
     "C04": dict(units=["tok", "expr"], bounded=[dict(kind="lib", witnesses="C04_WITNESSES"), dict(kind="corpus", kinds=["literals"])],
         explanation="quote choice (get_quote_to_use against the counting spec), number rewriting limited to inserting `0` before a leading `.` / after `-` "
@@ -99,7 +102,7 @@ PROPS = {
                      "byte-identical output across carriers is implied only through `same Config`; equality of the library's output for equal Configs is determinism of format_code, not proved"],
         assumptions=["ec4rs Properties::get::<T>() returns the parsed value of key T (wrappers); the string parsers generated by property_choice! are macro output (assumed)"],
         technique="Kani complete enumeration of finite enum domains + Verus contracts on mechanically extracted real functions"),
-    "C07": dict(bounded=[dict(kind="lib", witnesses="C07_BOUNDED"), dict(kind="corpus", kinds=["panic", "error", "timeout"])], units=["expr", "block", "ctx", "lib", "tok", "cli_io", "diff", "config", "econf", "sort", "args", "table", "stmt"], kani=["shape"],
+    "C07": dict(bounded=[dict(kind="lib", witnesses="C07_BOUNDED"), dict(kind="corpus", kinds=["panic", "error", "timeout"])], units=["expr", "block", "ctx", "lib", "tok", "cli_io", "diff", "config", "econf", "sort", "args", "table", "stmt", "luau"], kani=["shape"],
         explanation="Totality of the library call, decided per function under contract: inside every function whose real text is verified, each panic!/unreachable!/assert!/expect/unwrap, "
                     "each usize subtraction/addition/multiplication and every recursion or loop (decreases) is an obligation Verus discharges for all inputs (one `.total` obligation per function and "
                     "feature set). format_code returns Err(ParseError) iff the input does not parse and never Ok otherwise; format_ast without verification always returns Ok. "
@@ -118,13 +121,27 @@ PROPS = {
                      "slice::sort_by_key is assumed to be a stable sort by the name (class B wrapper); the leading-trivia swap (comments of the group's first line stay on top) is a hole: comment preservation inside a sorted group is only exercised by the bounded witnesses",
                      "get_expression_kind (what counts as a require / GetService call): string matching, assumed"],
         assumptions=["parsed ASTs carry positions; local names are identifier tokens (parser)"]),
-    "C02": dict(units=["expr", "block", "lib", "tok", "args", "table", "stmt"], bounded=[dict(kind="lib", witnesses="C02_BOUNDED"), dict(kind="corpus", kinds=["tree", "literals"])],
-        explanation="expression spine: same obligations as C05 (operator tree, leaves, operators)",
-        not_decided=["statement/block/args/token layers are decided in their own units (see runs)"],
-        assumptions=[]),
+    "C02": dict(units=["expr", "block", "lib", "tok", "args", "table", "stmt", "luau"], bounded=[dict(kind="lib", witnesses="C02_BOUNDED"), dict(kind="corpus", kinds=["tree", "literals"])],
+        explanation="expression spine: same obligations as C05 (operator tree, leaves, operators) plus line safety (code printed behind a line comment silently disappears: D25, D32, D33); "
+                    "statements of a block are the input's, in order (format_block invariant); token layer: names/symbols/numbers/strings per fmt_tt; call sugar keeps the single argument (args_sem); "
+                    "table fields keep kind, key and value trees (format_field, format_field_expression_value); a condition loses at most its top-level parentheses; "
+                    "Luau: keep_parentheses keeps the parentheses of a single type wherever the grammar reads the type differently without them (parens_needed, written from the Luau grammar). "
+                    "Bounded (labelled): Luau type witnesses, collapse witnesses, call-behind-comment witnesses, corpus sweep (tree and literal values).",
+        not_decided=["statement formatters other than format_block / format_stmt dispatch (if, while, for, function, assignment bodies): assumed to rebuild the same node kind (class C stubs)",
+                     "the context flags handed to keep_parentheses (format_type_info_internal) are not under contract"],
+        assumptions=["leaf formatters return the same leaf (var_id, call_id, table_id, ... postconditions on stubs)"]),
     "C01": dict(units=["expr", "block", "lib", "tok", "table"], bounded=[dict(kind="lib", witnesses="C01_BOUNDED"), dict(kind="corpus", kinds=["parse"])],
-        explanation="necessary conditions only: `- -x` guard on both paths, right-open expressions never freed under an operator",
-        not_decided=["whole-grammar printer correctness"], assumptions=[]),
+        explanation="necessary conditions, each a mechanism the property names: (1) `- -x` guard on both layout paths, right-open expressions never freed under an operator (C05 contract); "
+                    "(2) a long-bracket string is separated from `[` (format_index, format_field, is_brackets_string); (3) the statement separator is kept where the next statement starts with `(` "
+                    "(format_block); (4) LINE SAFETY inside expressions (prelude/lines.rs): esafe(r) is a postcondition of format_expression, format_expression_internal, hang_binop_expression, "
+                    "format_hanging_expression_, hang_expression, parenthesise, keep_double_minus_apart, move_operand_below_comment — at every operator, parenthesis and type assertion of the "
+                    "formatted expression, whatever follows a token whose trailing trivia end with a line comment starts a new line; (5) format_code returns exactly the printed AST. "
+                    "Bounded (labelled): witness programs for line comments outside expressions (arguments, parameters, for headers, callee/arguments, method calls) and the corpus sweep (re-parse).",
+        not_decided=["whole-grammar printer correctness (the property as stated): no contract reaches it; every statement formatter would need the line-safety postcondition",
+                     "line safety outside expressions: known NOT to hold on the current tree for comments behind header keywords (D30, known findings)"],
+        assumptions=["line safety: the leaves of an expression (names, calls, tables, anonymous functions, literals, the type of an assertion) are assumed safe (leaf_safe / ta_safe postconditions on stubs); "
+                     "format_binop/format_unop produce an operator that is open only if the source operator is; hang_binop produces an operator that starts a line and is closed; "
+                     "removed_parentheses_comments terminates every leading comment it returns with a newline; has_trailing_comments(Single|All) is true for a node whose last token is open (definitional)"]),
 }
 
 def w(src, oracle="tree", **kw):
